@@ -52,6 +52,18 @@ pub fn measure<R>(f: impl FnOnce() -> R) -> (R, usize, usize) {
     (r, total, peak)
 }
 
+/// Start measuring: returns the current live level (baseline) and resets the peak to it.
+pub fn start() -> usize {
+    let l0 = LIVE.load(Ordering::Relaxed);
+    PEAK.store(l0, Ordering::Relaxed);
+    l0
+}
+
+/// Peak live bytes above `base` since `start`.
+pub fn peak_since(base: usize) -> usize {
+    PEAK.load(Ordering::Relaxed).saturating_sub(base)
+}
+
 pub fn dispatch(_name: &str, _args: &[&str]) -> Option<String> {
     None
 }
